@@ -129,7 +129,14 @@ def extract_iter(
                         types.GeneratorType,
                         types.AsyncGeneratorType,
                     ),
+                ) or current is not (
+                    getattr(origin, "gi_frame", None)
+                    or getattr(origin, "cr_frame", None)
+                    or getattr(origin, "ag_frame", None)
                 ):
+                    # Only the generator-like object's own frame can be
+                    # recovered from it by extract_outermost(); frames it is
+                    # merely calling (it is running) must not claim it
                     origin = None
                 current = Frame(pyframe=current, origin=origin)
             if isinstance(current, Frame):
